@@ -254,14 +254,19 @@ fn feature(msg: &[u8], exp: &Expect) -> String {
 }
 
 pub fn run_case(rep: &Reporter, local: &mut Local, rt: &tokio::runtime::Runtime, http: &mut srv::HttpSvc, ws: &srv::WsServer, gen_name: &str, msg: &[u8], batch: BatchRequestConfig, prop_sig_prefix: &str) {
+	run_case_with(rep, local, gen_name, msg, batch, prop_sig_prefix, |t| match t {
+		Transport::Http => rt.block_on(srvref::http_roundtrip(http, msg)),
+		Transport::Ws => rt.block_on(srvref::ws_roundtrip(ws, msg)),
+	});
+}
+
+/// Judge one message on both transports; `roundtrip` delivers it and returns what came back.
+pub fn run_case_with(rep: &Reporter, local: &mut Local, gen_name: &str, msg: &[u8], batch: BatchRequestConfig, prop_sig_prefix: &str, mut roundtrip: impl FnMut(Transport) -> srvref::Observed) {
 	let mut objs: Vec<Option<serde_json::Value>> = Vec::new();
 	let mut classes = Vec::new();
 	for t in [Transport::Http, Transport::Ws] {
 		let exp = srvref::expect(msg, t, batch);
-		let obs = match t {
-			Transport::Http => rt.block_on(srvref::http_roundtrip(http, msg)),
-			Transport::Ws => rt.block_on(srvref::ws_roundtrip(ws, msg)),
-		};
+		let obs = roundtrip(t);
 		let tn = if t == Transport::Http { "http" } else { "ws" };
 		let feat = feature(msg, &exp);
 		let case = json!({"engine":"ENUM","generator": gen_name, "transport": tn, "batch_config": format!("{batch:?}"),
@@ -336,7 +341,7 @@ pub fn hex(b: &[u8]) -> String {
 pub fn check(rep: &Reporter) {
 	let thorough = rep.tier.thorough();
 	rep.set_rule(
-		"messages = REQ (21 id forms × 12 methods incl. every handler kind, unknown, empty, escaped spelling, non-string × 11 params × 5 versions; plus all 24 member orders × 5 extra members incl. duplicates × {0,1,127} leading whitespace bytes on a sub-product) ∪ TOK (all token strings of length ≤5 (thorough 6) over 14 tokens starting with { or [) ∪ MUT (delete/duplicate/replace-by-15-bytes/truncate at every position of 5 (thorough 12) base requests) ∪ BYTES (all strings of ≤2 bytes (quick: a dense subset of the 2-byte ones), every single-byte replacement in 2 (thorough 6) bases); each distinct byte string is sent over HTTP and over a fresh WebSocket connection followed by a sentinel call; all frames until close are collected. Oracle = independent classifier on a duplicate-preserving JSON tree. Distinct by byte string; every case is non-trivial (it is executed on both transports).",
+		"messages = REQ (21 id forms × 12 methods incl. every handler kind, unknown, empty, escaped spelling, non-string × 11 params × 5 versions; plus all 24 member orders × 5 extra members incl. duplicates × {0,1,127} leading whitespace bytes on a sub-product) ∪ TOK (all token strings of length ≤5 (thorough 6) over 14 tokens starting with { or [) ∪ MUT (delete/duplicate/replace-by-15-bytes/truncate at every position of 5 (thorough 12) base requests) ∪ BYTES (all strings of ≤2 bytes (quick: a dense subset of the 2-byte ones), every single-byte replacement in 2 (thorough 6) bases); each distinct byte string is sent over HTTP and over a fresh WebSocket connection followed by a sentinel call; all frames until close are collected; the REQ product in canonical order (quick: version 2.0 only) and TOK ≤ 3 additionally travel through Server::start over loopback TCP (raw HTTP/1.1 keep-alive connection resp. soketto client), judged by the same classifier. Oracle = independent classifier on a duplicate-preserving JSON tree. Distinct by byte string; every case is non-trivial (it is executed on both transports).",
 	);
 	rep.assume("`null` params are 'no params'; ASCII form feed counts as leading whitespace (the library's sniffing window uses is_ascii_whitespace)");
 	let cases = cases(thorough);
@@ -353,6 +358,51 @@ pub fn check(rep: &Reporter) {
 		let _e = rt.enter();
 		run_case(rep, local, rt, http, ws, g, msg, BatchRequestConfig::Unlimited, "");
 	});
+	// SRV-TCP leg: the same judgement with the message travelling through `Server::start` (accept loop, hyper's HTTP/1.1
+	// framing, the WebSocket upgrade) over loopback sockets. Family: the REQ product in canonical member order (quick:
+	// version "2.0" only) and every TOK string of length ≤ 3.
+	{
+		let fam: Vec<(&'static str, Vec<u8>)> = cases
+			.iter()
+			.filter(|(g, m)| match *g {
+				"req" => thorough || m.windows(15).any(|w| w == b"\"jsonrpc\":\"2.0\""),
+				"tok" => tok_len(m) <= 3,
+				_ => false,
+			})
+			.map(|(g, m)| (if *g == "req" { "tcp-req" } else { "tcp-tok" }, m.clone()))
+			.collect();
+		rep.extra("tcp_leg_cases", json!(fam.len()));
+		par_for(rep, fam.len(), 8, srv::rt, |i, rt, local| {
+			let (g, msg) = &fam[i];
+			let _e = rt.enter();
+			let mut attempt = 0;
+			loop {
+				attempt += 1;
+				let log: srv::InvLog = Default::default();
+				let r = rt.block_on(tcp_roundtrips(msg, log));
+				match r {
+					Ok((h, w)) => {
+						let mut h = Some(h);
+						let mut w = Some(w);
+						run_case_with(rep, local, g, msg, BatchRequestConfig::Unlimited, "tcp:", |t| match t {
+							Transport::Http => h.take().unwrap(),
+							Transport::Ws => w.take().unwrap(),
+						});
+						break;
+					}
+					// operating-system level trouble (ports, descriptors) is not a verdict: retry, then report as machinery
+					Err(e) if attempt < 3 => {
+						let _ = e;
+						std::thread::sleep(std::time::Duration::from_millis(50 * attempt));
+					}
+					Err(e) => {
+						rep.machinery_error(format!("SRV-TCP leg: {e} (message {:?})", String::from_utf8_lossy(msg)));
+						break;
+					}
+				}
+			}
+		});
+	}
 	// SCHED leg (configuration: message_buffer_capacity 1–2, pipelined calls)
 	for s in pipelined_scenarios(thorough) {
 		crate::sched::explore_auto(&s, rep, if thorough { 400_000 } else { 20_000 }, if thorough { 3 } else { 2 }, 50, std::time::Duration::from_secs(if thorough { 300 } else { 8 }));
@@ -429,4 +479,203 @@ pub fn dyn_scenarios() -> Vec<Box<dyn crate::sched::DynScenario>> {
 		v.push(Box::new(s));
 	}
 	v
+}
+
+
+fn tok_len(m: &[u8]) -> usize {
+	// number of tokens of a TOK string: greedy match against the token alphabet
+	let s = String::from_utf8_lossy(m);
+	let mut rest: &str = &s;
+	let mut n = 0;
+	'outer: while !rest.is_empty() {
+		let mut toks: Vec<&str> = TOKENS.iter().copied().chain(["{", "["]).collect();
+		toks.sort_by_key(|t| std::cmp::Reverse(t.len()));
+		for t in toks {
+			if !t.is_empty() && rest.starts_with(t) {
+				rest = &rest[t.len()..];
+				n += 1;
+				continue 'outer;
+			}
+		}
+		return usize::MAX;
+	}
+	n
+}
+
+/// One message through a real `Server` over loopback: HTTP (message, then the sentinel on the same keep-alive
+/// connection) and WebSocket (message, sentinel; after the sentinel's reply the server is stopped and everything until
+/// the close is collected).
+async fn tcp_roundtrips(msg: &[u8], log: srv::InvLog) -> Result<(srvref::Observed, srvref::Observed), String> {
+	use tokio::io::AsyncWriteExt;
+	use tokio_util::compat::TokioAsyncReadCompatExt;
+	let listener = std::net::TcpListener::bind("127.0.0.1:0").map_err(|e| format!("bind: {e}"))?;
+	listener.set_nonblocking(true).map_err(|e| e.to_string())?;
+	let addr = listener.local_addr().map_err(|e| e.to_string())?;
+	let server = jsonrpsee_server::Server::builder().set_config(srv::cfg_builder().build()).build_from_tcp(listener).map_err(|e| format!("build: {e}"))?;
+	let handle = server.start(srv::std_module(log.clone()));
+	// ---- HTTP
+	let mut http = srvref::Observed { replies: vec![], notifications: vec![], handlers: vec![], sentinel_ok: false, http_status: None, problem: None };
+	{
+		let mut io = tokio::net::TcpStream::connect(addr).await.map_err(|e| format!("connect: {e}"))?;
+		let post = |body: &[u8]| {
+			let mut r = format!("POST / HTTP/1.1\r\nhost: localhost\r\ncontent-type: application/json\r\ncontent-length: {}\r\n\r\n", body.len()).into_bytes();
+			r.extend_from_slice(body);
+			r
+		};
+		log.lock().unwrap().clear();
+		io.write_all(&post(msg)).await.map_err(|e| format!("write: {e}"))?;
+		match read_response(&mut io).await {
+			Some((status, body)) => {
+				http.http_status = Some(status);
+				if !(body.is_empty() || body == b"null") {
+					http.replies.push(body);
+				}
+			}
+			None => http.problem = Some("no HTTP response".into()),
+		}
+		http.handlers = log.lock().unwrap().clone();
+		// the sentinel on the same connection (keep-alive), or on a new one if the server closed it
+		let mut ok = false;
+		if io.write_all(&post(srvref::SENTINEL.as_bytes())).await.is_ok() {
+			if let Some((200, b)) = read_response(&mut io).await {
+				ok = srvref::is_sentinel_reply(&b);
+			}
+		}
+		if !ok {
+			if let Ok(mut io2) = tokio::net::TcpStream::connect(addr).await {
+				if io2.write_all(&post(srvref::SENTINEL.as_bytes())).await.is_ok() {
+					if let Some((200, b)) = read_response(&mut io2).await {
+						ok = srvref::is_sentinel_reply(&b);
+					}
+				}
+			}
+		}
+		http.sentinel_ok = ok;
+	}
+	// ---- WebSocket
+	let mut ws = srvref::Observed { replies: vec![], notifications: vec![], handlers: vec![], sentinel_ok: false, http_status: None, problem: None };
+	{
+		log.lock().unwrap().clear();
+		let io = tokio::net::TcpStream::connect(addr).await.map_err(|e| format!("connect: {e}"))?;
+		let mut client = soketto::handshake::Client::new(io.compat(), "localhost", "/");
+		match client.handshake().await {
+			Ok(soketto::handshake::ServerResponse::Accepted { .. }) => {}
+			other => return Err(format!("handshake: {:?}", other.map(|_| "not accepted"))),
+		}
+		let mut b = client.into_builder();
+		b.set_max_message_size(64 << 20);
+		let (mut sender, mut receiver) = b.finish();
+		let text = std::str::from_utf8(msg).map_err(|_| "the TCP leg only carries UTF-8 messages".to_string())?;
+		let sent = async {
+			sender.send_text(text).await?;
+			sender.send_text(srvref::SENTINEL).await?;
+			sender.flush().await
+		}
+		.await;
+		if let Err(e) = sent {
+			ws.problem = Some(format!("send: {e}"));
+		}
+		let mut stopped = false;
+		let mut buf = Vec::new();
+		loop {
+			buf.clear();
+			match tokio::time::timeout(std::time::Duration::from_secs(20), receiver.receive_data(&mut buf)).await {
+				Err(_) => {
+					ws.problem = Some("hang: no frame and no close within 20 s".into());
+					break;
+				}
+				Ok(Err(_)) => break,
+				Ok(Ok(_)) => {}
+			}
+			let f = buf.clone();
+			if srvref::is_sentinel_reply(&f) {
+				ws.sentinel_ok = serde_json::from_slice::<serde_json::Value>(&f).map_or(false, |v| v["result"] == 42);
+				if !stopped {
+					stopped = true;
+					let _ = handle.stop();
+				}
+				continue;
+			}
+			match crate::refmodel::PJ::parse(&f) {
+				Some(v) if srvref::is_notification_frame(&v) => ws.notifications.push(f),
+				_ => ws.replies.push(f),
+			}
+		}
+		ws.handlers = log.lock().unwrap().iter().filter(|h| *h != "add").cloned().collect();
+		let adds = log.lock().unwrap().iter().filter(|h| *h == "add").count();
+		for _ in 1..adds {
+			ws.handlers.push("add".into());
+		}
+	}
+	let _ = handle.stop();
+	let _ = tokio::time::timeout(std::time::Duration::from_secs(20), handle.stopped()).await;
+	Ok((http, ws))
+}
+
+/// Read one HTTP/1.1 response with Content-Length or chunked framing from a keep-alive connection.
+async fn read_response(io: &mut tokio::net::TcpStream) -> Option<(u16, Vec<u8>)> {
+	use tokio::io::AsyncReadExt;
+	let mut buf: Vec<u8> = Vec::new();
+	let mut tmp = [0u8; 4096];
+	let deadline = std::time::Duration::from_secs(20);
+	loop {
+		if let Some(pos) = buf.windows(4).position(|w| w == b"\r\n\r\n") {
+			let head = String::from_utf8_lossy(&buf[..pos]).to_ascii_lowercase();
+			let status: u16 = head.split_whitespace().nth(1)?.parse().ok()?;
+			let mut body = buf[pos + 4..].to_vec();
+			if let Some(len) = head.lines().find_map(|l| l.strip_prefix("content-length:").map(|v| v.trim().parse::<usize>().unwrap_or(0))) {
+				while body.len() < len {
+					let n = tokio::time::timeout(deadline, io.read(&mut tmp)).await.ok()?.ok()?;
+					if n == 0 {
+						return None;
+					}
+					body.extend_from_slice(&tmp[..n]);
+				}
+				body.truncate(len);
+				return Some((status, body));
+			}
+			if head.contains("transfer-encoding: chunked") {
+				// de-chunk
+				loop {
+					let mut out = Vec::new();
+					let mut rest: &[u8] = &body;
+					let mut complete = false;
+					loop {
+						let Some(eol) = rest.windows(2).position(|w| w == b"\r\n") else { break };
+						let Ok(sz) = usize::from_str_radix(String::from_utf8_lossy(&rest[..eol]).trim(), 16) else { return None };
+						if rest.len() < eol + 2 + sz + 2 {
+							break;
+						}
+						if sz == 0 {
+							complete = true;
+							break;
+						}
+						out.extend_from_slice(&rest[eol + 2..eol + 2 + sz]);
+						rest = &rest[eol + 2 + sz + 2..];
+					}
+					if complete {
+						return Some((status, out));
+					}
+					let n = tokio::time::timeout(deadline, io.read(&mut tmp)).await.ok()?.ok()?;
+					if n == 0 {
+						return None;
+					}
+					body.extend_from_slice(&tmp[..n]);
+				}
+			}
+			// no framing header: body until close
+			loop {
+				let n = tokio::time::timeout(deadline, io.read(&mut tmp)).await.ok()?.ok()?;
+				if n == 0 {
+					return Some((status, body));
+				}
+				body.extend_from_slice(&tmp[..n]);
+			}
+		}
+		let n = tokio::time::timeout(deadline, io.read(&mut tmp)).await.ok()?.ok()?;
+		if n == 0 {
+			return None;
+		}
+		buf.extend_from_slice(&tmp[..n]);
+	}
 }
